@@ -158,7 +158,7 @@ def congruence(ctx, f, g, n, hint="S", premise_checked=True, name="congruence"):
     if premise_checked:
         ob = ctx.check(f"{ctx.unit_name}/lemma_premise:{name}", prem, kind="lemma_premise")
         if ob is not None and ob.status != "discharged":
-            return sf, sg
+            raise core.EndPath()   # reported through the premise; nothing downstream is checked on this path
         ctx.assume(z3.Implies(nt >= 0, sf.t == sg.t), "lemma:congruence")
     else:
         ctx.assume(z3.Implies(z3.And(nt >= 0, prem), sf.t == sg.t), "lemma:congruence")
